@@ -28,22 +28,43 @@ def tol_reward(ref):
     return 1e-4 * max(1.0, abs(ref))
 
 
+# envs whose instance format is closed under reset (env.reset returns its argument, updated in place - torchrl semantics -
+# and a second reset of that object starts an identical fresh episode on the unchanged tree). For the others (CVRP family, OP,
+# PCTSP, PDP, MDCPDP, MCP: reset prepends the depot / rewrites instance keys) resetting a consumed object is not supported
+# by the library as it stands, so the reuse workload is not applied to them.
+REUSE_OK = {"tsp", "atsp", "mtsp", "mtvrp", "fjsp", "jssp", "flp", "dpp", "mdpp", "smtwtp"}
+
+
 def routing_case(ctx, case, monitors):
     cfg, family, B, seed = case["cfg"], case["family"], case["B"], case["s"]
+    if case.get("reuse") and cfg["env"] not in REUSE_OK:
+        case = dict(case, reuse=False)
     env, O = envzoo.make(cfg)
     td_in = envzoo.instances(env, cfg, family, B, seed)
     gen = torch.Generator().manual_seed(seed)
     names = envzoo.chooser_mix(B, seed) if case.get("choosers", "mix") == "mix" else [case["choosers"]] * B
     # bound for the driver: generous multiple of the oracle's bound so that a hung episode is observed, not awaited
     td0_probe = None
-    ep = run_episode(env, td_in, names, gen, max_steps=case.get("max_steps", 6 * cfg["n"] + 30))
+    td_pristine = td_in.clone()  # what the oracles read: the instance as handed over, before any episode touched the object
+    if case.get("reuse"):
+        # the same instance object is decoded twice without cloning (evaluate a batch, then evaluate it again): the first
+        # episode must leave nothing behind in it; the monitors below watch the SECOND episode
+        run_episode(env, td_in, list(reversed(names)), torch.Generator().manual_seed(seed + 1), max_steps=case.get("max_steps", 6 * cfg["n"] + 30), clone_input=False)
+        ctx.count("reused_instance_objects")
+    ep = run_episode(env, td_in, names, gen, max_steps=case.get("max_steps", 6 * cfg["n"] + 30), clone_input=not case.get("reuse"))
     td0 = ep.td0
-    insts = [O.extract(td_in, td0, b, env) for b in range(B)]
+    # static instance fields for the oracles: in reuse mode from a reset of the pristine copy, not of the reused object
+    td0_src = env.reset(td_pristine.clone()) if case.get("reuse") else td0
+    insts = [O.extract(td_pristine, td0_src, b, env) for b in range(B)]
     ctx.count("episodes")
     ctx.count("env_steps", len(ep.actions))
     fins = [ep.finish_step(b) for b in range(B)]
     T = len(ep.actions)
     pad = [0 if f is None else T - 1 - f for f in fins]
+    if ep.error is not None and "C02" not in monitors:
+        ctx.evaluation()
+        ctx.violation(sig_of(cfg, q="step_raises", exc=type(ep.error).__name__, reuse=bool(case.get("reuse"))), f"env.step raised {type(ep.error).__name__} during a mask-confined episode: {str(ep.error)[:200]}", dict(step=T))
+        return
 
     # ---------------- C02: structural per-step monitor --------------------------------------
     if "C02" in monitors:
@@ -206,6 +227,8 @@ def _structural(ctx, cfg, ep, B, bound_of, insts, family="gen"):
 
 def other_case(ctx, case, monitors):
     cfg, B, seed = case["cfg"], case["B"], case["s"]
+    if case.get("reuse") and cfg["env"] not in REUSE_OK:
+        case = dict(case, reuse=False)
     name = cfg["env"]
     env = envzoo.make_other(cfg)
     torch.manual_seed(seed)
@@ -234,11 +257,19 @@ def other_case(ctx, case, monitors):
     elif name == "mcp":
         snap = ["weights", "chosen", "membership"]
     td_keep = td_in.clone()
-    ep = run_episode(env, td_in, names, gen, max_steps=case.get("max_steps", 2000), snap_keys=snap)
+    if case.get("reuse"):
+        run_episode(env, td_in, list(reversed(names)), torch.Generator().manual_seed(seed + 1), max_steps=case.get("max_steps", 2000), clone_input=False)
+        ctx.count("reused_instance_objects")
+    ep = run_episode(env, td_in, names, gen, max_steps=case.get("max_steps", 2000), snap_keys=snap, clone_input=not case.get("reuse"))
     td0 = ep.td0
     T = len(ep.actions)
     ctx.count("episodes")
     ctx.count("env_steps", T)
+    if ep.error is not None and ({"C07", "C08", "C03"} & monitors) and "C02" not in monitors:
+        # a mask-confined episode that raises yields no schedule / selection / reward at all
+        ctx.evaluation()
+        ctx.violation(sig_of(cfg, q="step_raises", exc=type(ep.error).__name__, reuse=bool(case.get("reuse"))), f"env.step raised {type(ep.error).__name__} during a mask-confined episode: {str(ep.error)[:200]}", dict(step=T))
+        return
 
     # ------------------------------------------------------------------ FJSP / JSSP
     if name in ("fjsp", "jssp"):
